@@ -3,7 +3,8 @@ import random
 
 from harness import gen_objects as G
 from harness import shims
-from harness.impl_history import impl_history_op, call_table, is_export, isolation_mode, cold
+from harness.impl_history import (impl_history_op, call_table, is_export, isolation_mode, cold, FLAG_SETTERS,
+                                  CHROMOSOME_LEVEL)
 
 ID = "C10"
 LEAN_MODULE = "BioCantor.Props.C10"
@@ -40,6 +41,12 @@ ASSUMPTIONS = ["the memoised Python functions are pure functions of the construc
                "T4 takes the extensional equality of the two extract_sequence paths as a hypothesis (C05's theorem)"]
 
 KINDMODES = [f"{k}.{m}.{sp}" for sp in "es" for k in G.KINDS for m in G.MODES]
+# sequence chunk that CUTS the (primary) CDS on the low / high coordinate side or both (5' or 3' by strand)
+CUT_KINDMODES = [f"{k}.chunk.{sp}.{cut}" for sp in "es" for k in G.CUT_KINDS for cut in G.CUTS]
+CDS_PREFIX = {"cds": "", "transcript": "cds.", "gene": "cds0.", "annot": "cds0."}
+OBJECT_LEVEL = ["to_dict", "guid", "__hash__", "__eq__:twin", "get_cds_sequence", "get_protein_sequence",
+                "get_primary_cds_sequence", "get_primary_protein", "get_primary_cds", "cds_size", "chunk_relative_cds_size",
+                "has_in_frame_stop", "to_gff", "to_bed12", "__str__"]
 
 
 def impl(line):
@@ -54,7 +61,7 @@ def nontrivial(line, ans):
     if t[0] in ("lru", "plru", "memo"):
         return line if "E" in ans else None
     if t[0] == "cdshist":
-        return line if len(t[2]) >= 2 else None
+        return line if len(t[4]) >= 2 else None
     return line if ans.startswith("ok") else None
 
 
@@ -176,24 +183,65 @@ def cds_literal(rng, strand, k, stop=True):
     return letters, lit
 
 
+def cut_literal(rng, strand, k, cut):
+    """CDS (>= 24 bases, start frame 0) on a sequence chunk whose window CUTS it on the low / high coordinate side or
+    both.  The three reference numbers are what FRESHLY BUILT real objects answer (one object per question): what the
+    codons of a cut CDS are is C05/C07's business, C10 only demands that the answers do not depend on the history."""
+    from harness.impl_history import build_cds_literal, cold
+    for _ in range(200):
+        letters, lit = cds_literal(rng, strand, k, stop=False)
+        t = lit.split()
+        blocks = [(int(t[2 + 2 * j]), int(t[3 + 2 * j])) for j in range(k)]
+        flat = [p for s, e in blocks for p in range(s, e)]
+        if len(flat) < 24:
+            continue
+        a = rng.randint(3, 8) if cut in ("lo", "both") else 0
+        b = rng.randint(3, 8) if cut in ("hi", "both") else 0
+        cs = flat[a] if a else max(0, flat[0] - 1)
+        ce = flat[len(flat) - 1 - b] + 1 if b else flat[-1] + 2
+        lit = f"{lit} {cs} {ce}"
+        toks = lit.split()
+        try:
+            cold()
+            seq = str(build_cds_literal(toks, 0).extract_sequence())
+            cold()
+            nchunk = build_cds_literal(toks, 0).num_chunk_relative_codons
+            cold()
+            total = build_cds_literal(toks, 0).num_codons
+        except Exception:  # noqa  (a layout the library refuses is not a history question)
+            continue
+        if nchunk < total and seq:
+            return seq, nchunk, total, lit
+    raise RuntimeError("no chunk-cut CDS layout found")
+
+
 def cds_cases(run):
     rng = random.Random(1234)        # the exhaustive part does not depend on the seed
-    layouts = [cds_literal(rng, "+", 1), cds_literal(rng, "-", 2), cds_literal(rng, "+", 3, stop=False),
-               cds_literal(rng, "-", 1, stop=False)]
-    for letters, lit in layouts:
-        if not letters:
-            continue
-        for n in range(1, 5):
-            for w in _seqs(list("cnev"), n):
-                yield f"cdshist {letters} {''.join(w)} {lit}"
+    plain = [cds_literal(rng, "+", 1), cds_literal(rng, "-", 2), cds_literal(rng, "+", 3, stop=False),
+             cds_literal(rng, "-", 1, stop=False)]
+    layouts = [(letters, len(letters) // 3, len(letters) // 3, lit, 4 if i < 2 else 3)
+               for i, (letters, lit) in enumerate(plain) if letters]
+    # the chunk cuts the CDS: 5' / 3' / both, both strands, single- and multi-exon
+    for strand, k, cut in (("+", 1, "lo"), ("+", 3, "hi"), ("-", 2, "lo"), ("-", 1, "hi"), ("+", 2, "both"), ("-", 3, "both")):
+        layouts.append(cut_literal(rng, strand, k, cut) + (4,))
+        run.count("cdshist:cut-layout")
+    for letters, nchunk, total, lit, depth in layouts:
+        for n in range(1, depth + 1):
+            for w in _seqs(list("cnevN"), n):
+                yield f"cdshist {letters} {nchunk} {total} {''.join(w)} {lit}"
     rng = run.rng
     for _ in range(80 if run.tier == "quick" else 2000):
-        letters, lit = cds_literal(rng, rng.choice("+-"), rng.randint(1, 4), stop=rng.random() < 0.5)
-        if not letters:
-            continue
-        w = "".join(rng.choice("cnev") for _ in range(rng.randint(1, 8)))
-        run.count("cdshist:random")
-        yield f"cdshist {letters} {w} {lit}"
+        if rng.random() < 0.5:
+            letters, nchunk, total, lit = cut_literal(rng, rng.choice("+-"), rng.randint(1, 4), rng.choice(["lo", "hi", "both"]))
+            run.count("cdshist:random-cut")
+        else:
+            letters, lit = cds_literal(rng, rng.choice("+-"), rng.randint(1, 4), stop=rng.random() < 0.5)
+            nchunk = total = len(letters) // 3
+            if not letters:
+                continue
+            run.count("cdshist:random")
+        w = "".join(rng.choice("cnevN") for _ in range(rng.randint(1, 8)))
+        yield f"cdshist {letters} {nchunk} {total} {w} {lit}"
 
 
 def _qd(d):
@@ -220,6 +268,7 @@ _TABLE_CACHE = {}
 
 def tokens_for(kindmode):
     """the call tokens of a kind (introspection of the real class + the argument table); shape does not depend on seed"""
+    kindmode = ".".join(kindmode.split(".")[:3])         # a chunk-cut recipe has the same calls
     if kindmode not in _TABLE_CACHE:
         kind, mode, sp = kindmode.split(".")
         r = G.make(kind, random.Random(0), mode, sp)
@@ -227,12 +276,47 @@ def tokens_for(kindmode):
     return _TABLE_CACHE[kindmode]
 
 
+def flag_first(rng, kindmode, n):
+    """history that FIRST reads the accessors that set `_chunk_relative_codon_locations_cached` on the (primary) CDS and
+    THEN asks every chromosome-level / object-level question (num_codons, chromosome_codon_locations, translate,
+    extract_sequence, has_valid_stop, to_dict, guid, ...), with other calls interleaved"""
+    kind = kindmode.split(".")[0]
+    toks = tokens_for(kindmode)
+    have = set(toks)
+    pre = CDS_PREFIX[kind]
+    flags = [pre + x for x in FLAG_SETTERS if pre + x in have]
+    later = [pre + x for x in CHROMOSOME_LEVEL if pre + x in have] + [x for x in OBJECT_LEVEL if x in have and pre]
+    plain = [t for t in toks if not t.endswith(":shared")]
+    hist = rng.sample(flags, rng.randint(1, len(flags)))
+    rng.shuffle(later)
+    for x in later:
+        if rng.random() < 0.3:
+            hist.append(rng.choice(plain))
+        hist.append(x)
+    while len(hist) < n:
+        hist.insert(rng.randint(len(flags), len(hist)), rng.choice(plain + flags + later))
+    # some histories ask a chromosome-level question BEFORE as well (memoised value must survive the flag)
+    if rng.random() < 0.3:
+        hist.insert(0, rng.choice(later))
+    return hist
+
+
 def history(rng, kindmode, cap, n_calls=None, flavour=None):
     """one random history: permutation with repetitions of call tokens + fillers"""
     toks = tokens_for(kindmode)
     plain = [t for t in toks if not t.endswith(":shared")]
     n = n_calls or rng.randint(30, 40)
+    parts = kindmode.split(".")
+    if flavour is None and parts[0] in CDS_PREFIX:
+        p_flag = 0.6 if len(parts) > 3 else 0.3 if parts[1] == "chunk" else 0.1
+        if rng.random() < p_flag:
+            flavour = "flagfirst"
     flavour = flavour or rng.choice(["mixed", "mixed", "repeat", "exports", "evict", "spelling", "shared", "siblings"])
+    if flavour == "flagfirst":
+        hist = flag_first(rng, kindmode, n)
+        for f in [rng.choice(["W", "X", f"P{rng.randint(1, 40)}", "S", f"P{cap + 3}"]) for _ in range(rng.randint(0, 2))]:
+            hist.insert(rng.randrange(len(hist) + 1), f)
+        return hist, flavour
     hist = []
     pool = rng.sample(plain, min(len(plain), rng.randint(8, 25)))
     for _ in range(n):
@@ -276,8 +360,34 @@ def hist_cases(run):
             run.count("hist-mode:" + km.split(".")[1])
             run.count("hist-flavour:" + flavour)
             yield f"hist {km} {seed} " + " ".join(h)
+    # the chunk cuts the CDS: a guaranteed share of the lines, most of them reading the flag-setting accessors first
+    for km in CUT_KINDMODES:
+        per = (8 if km.split(".")[2] == "e" else 4) if run.tier == "quick" else (150 if km.split(".")[2] == "e" else 60)
+        for _ in range(per):
+            seed = rng.randint(0, 10 ** 6)
+            h, flavour = history(rng, km, cap)
+            run.count("hist-cut:" + km.split(".")[0] + "." + km.split(".")[3])
+            run.count("hist-flavour:" + flavour)
+            yield f"hist {km} {seed} " + " ".join(h)
+    # pair sweep: ONE accessor A first, then every argument-less question (any accessor whose side effect changes any
+    # other accessor's answer is caught on these recipes, whatever the pair)
+    if run.tier == "quick":
+        sweeps = [("cds.chunk.e.both", None), ("transcript.chunk.e.lo", "cds."), ("gene.chunk.e.hi", "cds0.")]
+    else:
+        sweeps = [(f"cds.chunk.e.{c}", None) for c in G.CUTS] + [("cds.chrom.e", None), ("cds.none.s", None)] + \
+                 [(f"transcript.chunk.e.{c}", None) for c in G.CUTS] + [(f"gene.chunk.e.{c}", None) for c in G.CUTS] + \
+                 [("annot.chunk.e.both", "cds0."), ("transcript.chrom.e", None)]
+    for km, only in sweeps:
+        seed = rng.randint(0, 10 ** 6)
+        noarg = [t for t in tokens_for(km) if ":" not in t]
+        firsts = [t for t in noarg if only is None or t.startswith(only)]
+        for a in firsts:
+            rest = list(noarg)
+            rng.shuffle(rest)
+            run.count("hist:pair-sweep")
+            yield f"hist {km} {seed} {a} " + " ".join(rest)
     # every call of every kind asked twice around an eviction (covers the whole table at least once per run)
-    for km in KINDMODES:
+    for km in KINDMODES + [k for k in CUT_KINDMODES if k.split(".")[2] == "e"]:
         toks = [t for t in tokens_for(km) if not t.endswith(":shared")]
         seed = rng.randint(0, 10 ** 6)
         rng.shuffle(toks)
